@@ -573,7 +573,25 @@ impl Database {
             match i32::from_str_radix(&current_value, 10) {
                 Ok(current) => {
                     let next = (current + inc).to_string();
-                    db.insert(key.clone(), Value::from(next.clone()));
+                    // Keep the record the key already has on disk (and its version history),
+                    // the same way set_value does, otherwise the next snapshot appends a second
+                    // record and a later remove only tombstones one of them
+                    let new_value = match db.get(&key.to_string()) {
+                        Some(old_value) => Value {
+                            value: next.clone(),
+                            version: if old_value.is_in_conflict_resolution() {
+                                old_value.version
+                            } else {
+                                old_value.version + 1
+                            },
+                            opp_id: Databases::next_op_log_id(),
+                            state: old_value.get_update_value_sate(),
+                            value_disk_addr: old_value.value_disk_addr,
+                            key_disk_addr: old_value.key_disk_addr,
+                        },
+                        None => Value::from(next.clone()),
+                    };
+                    db.insert(key.clone(), new_value);
                     (next, -1)
                 }
                 _ => {
